@@ -302,6 +302,15 @@ func worker(prop string, scenarios []Scenario) {
 	}
 	var violated bool
 	sample := ""
+	// classes listed as known findings do not end the exploration of this shard: they are reported
+	// once and the enumeration goes on, so that a different violation is still found
+	knownCls := map[string]bool{}
+	for _, f := range mc.LoadKnown() {
+		if f.Property == prop && f.Kind == "known" {
+			knownCls[f.Class] = true
+		}
+	}
+	reportedKnown := map[string]bool{}
 	res := vrt.Explore(ph.Bound, s.MaxSteps, *fShard, *fNShards, deadline, func() {
 		// body wrapper: runOne is not used here because Explore owns the Run call
 		cur = &Ctx{cnt: map[string]int{}}
@@ -338,6 +347,13 @@ func worker(prop string, scenarios []Scenario) {
 		if time.Since(lastEmit) > 2*time.Second {
 			lastEmit = time.Now()
 			emit(msg{T: "progress", Execs: execs, Steps: steps, Outcomes: outcomes, Traces: len(traces), Counters: counters})
+		}
+		if c.fail != "" && knownCls[classPrefix(s)+":"+c.class] {
+			if !reportedKnown[c.class] {
+				reportedKnown[c.class] = true
+				emit(msg{T: "violation", Class: c.class, Detail: c.fail, Prefix: prefix, Repro: 1})
+			}
+			return true
 		}
 		if c.fail != "" {
 			violated = true
